@@ -14,6 +14,7 @@
 -/
 import GraphiqModel.Model.GraphOps
 import GraphiqModel.Model.Tableau
+import GraphiqModel.Model.StateToGraph
 namespace Graphiq.LC
 open Graphiq
 
@@ -544,5 +545,53 @@ def lcCheckR (a b : BMat) (validate : Bool) : Except Err (Bool Ã— List (String Ã
       | .error e => .error e
       | .ok t => if isGraphState t b.f then .ok (true, gates) else .error .warning
     else .ok (true, gates)
+
+/-! ## `lc_check` on two stabilizer states (tableau inputs) -/
+
+/-- a `(name, qubit)` pair of a gate list as a `Gate` of the stabilizer backend (`run_circuit` dispatch) -/
+def toGate (g : String Ã— Nat) : Gate :=
+  match g.1 with
+  | "H" => .H g.2 | "P" => .P g.2 | "P_dag" => .Pdag g.2 | "X" => .X g.2 | "Y" => .Y g.2 | "Z" => .Z g.2
+  | _ => .I g.2
+
+/-- `lc_check(state1, state2, validate)` for two `StabilizerTableau`s (a `CliffordTableau` is first reduced by
+    `to_stabilizer`): both states are converted by `state_to_graph` (exceptions propagate), `converter_gate_list` runs on the two
+    graphs inside the bare `try â€¦ except` (any exception â†’ `(False, [])`), the total gate list is
+    `gates1 + gate_list + inversed_gates2` (`gates2` reversed with `P â†” P_dag`), and the validation compares the canonical forms
+    of `run_circuit(tab1, total)` and `tab2` (`Warning` when they differ) -/
+def lcCheckStates (t1 t2 : STab) (validate : Bool) : Except Err (Bool Ã— List Gate) :=
+  match S2G.stateToGraph t1 with
+  | .error e => .error e
+  | .ok (g1, G1) =>
+    match S2G.stateToGraph t2 with
+    | .error e => .error e
+    | .ok (g2, G2) =>
+      match converterGateListR g1 g2 with
+      | .error _ => .ok (false, [])
+      | .ok (L, _) =>
+        let total := G1 ++ L.map toGate ++ G2.reverse.map Gate.rev
+        if validate then
+          match S2G.sameStabilizerState (t1.runCircuit total) t2 with
+          | .error e => .error e
+          | .ok true => .ok (true, total)
+          | .ok false => .error .warning
+        else .ok (true, total)
+
+/-- `lc_check(state1, graph2, validate)`: the second argument is a graph (`state_to_graph` returns it unchanged with an empty
+    gate list and the tableau of `get_stabilizer_tableau_from_graph`) -/
+def lcCheckStateGraph (t1 : STab) (g2 : BMat) (validate : Bool) : Except Err (Bool Ã— List Gate) :=
+  match S2G.stateToGraph t1 with
+  | .error e => .error e
+  | .ok (g1, G1) =>
+    match converterGateListR g1 g2 with
+    | .error _ => .ok (false, [])
+    | .ok (L, _) =>
+      let total := G1 ++ L.map toGate
+      if validate then
+        match S2G.sameStabilizerState (t1.runCircuit total) (graphSTab g2.r g2.f) with
+        | .error e => .error e
+        | .ok true => .ok (true, total)
+        | .ok false => .error .warning
+      else .ok (true, total)
 
 end Graphiq.LC
